@@ -7,6 +7,7 @@ import ast, json, os, sys
 V = os.path.dirname(os.path.dirname(os.path.abspath(__file__)))
 roots = sys.argv[1:] or ["/repo"]
 funcs, names = set(), set()
+arity = {}
 
 
 def units(root):
@@ -38,15 +39,17 @@ for root in roots:
         for st in t.body:
             if isinstance(st, (ast.FunctionDef, ast.AsyncFunctionDef)):
                 funcs.add("%s.%s" % (mod, st.name))
+                arity["%s.%s" % (mod, st.name)] = len(st.args.posonlyargs) + len(st.args.args) + len(st.args.kwonlyargs)
             elif isinstance(st, ast.ClassDef):
                 for s2 in st.body:
                     if isinstance(s2, (ast.FunctionDef, ast.AsyncFunctionDef)):
                         funcs.add("%s.%s.%s" % (mod, st.name, s2.name))
+                        arity["%s.%s.%s" % (mod, st.name, s2.name)] = len(s2.args.posonlyargs) + len(s2.args.args) + len(s2.args.kwonlyargs)
                     for t2 in (s2.targets if isinstance(s2, ast.Assign) else [s2.target] if isinstance(s2, ast.AnnAssign) else []):
                         if isinstance(t2, ast.Name):
                             names.add("%s.%s.%s" % (mod, st.name, t2.id))
             for t2 in (st.targets if isinstance(st, ast.Assign) else [st.target] if isinstance(st, ast.AnnAssign) else []):
                 if isinstance(t2, ast.Name):
                     names.add("%s.%s" % (mod, t2.id))
-json.dump({"roots": roots, "functions": sorted(funcs), "names": sorted(names)}, open(os.path.join(V, "sa", "known_functions.json"), "w"), indent=0)
+json.dump({"roots": roots, "functions": sorted(funcs), "names": sorted(names), "arity": dict(sorted(arity.items()))}, open(os.path.join(V, "sa", "known_functions.json"), "w"), indent=0)
 print("known: %d functions, %d names" % (len(funcs), len(names)))
